@@ -11,6 +11,7 @@ CONFIGS = [{'SIMUCELL3D_VERIF_DYNAMIC_MODEL_INDEX': 0}]
 
 
 def build(reg, cfg=None):
+    reg.plain_views = True
     reg.default_havoc = '*'
     reg.add(M.add_node_contract(PROP))
     reg.add(M.get_edge_contract(PROP))
@@ -20,12 +21,31 @@ def build(reg, cfg=None):
     M.rebase_loops(reg)
     reg.add(M.rebase_contract(PROP))
     reg.add(M.split_edge_contract(PROP))
+    reg.add(M.check_winding_contract(PROP))
+    reg.add(M.can_be_merged_contract(PROP))
     reg.add(M.split_edge_contract(PROP, full=True))
     M.split_lemmas(reg, PROP)
 
 
 replay = M.replay
 replay_recorded = M.replay_recorded
+
+
+# swap_edge is not under a deductive contract (its proof needs the whole mesh invariant at five call sites). Its effect on the face
+# cache and on the orientation is exercised natively on the real routine: a BOUNDED stand-in (stated bound: every edge of one
+# icosphere offered to swap_edge), reported under bounded_checks, never as proved.
+def extra_checks(run):
+    import native, json, os
+    code, txt = native.run_driver(M.DRIVER, ['swap'], sanitize=True, timeout=900)
+    name = 'C01/bounded/face-cache-and-orientation-after-edge-swaps[icosphere]'
+    rec = {'name': name, 'bound': 'every edge of a once-subdivided icosphere offered to the real local_mesh_refiner::swap_edge (ASan/UBSan build); afterwards cached normals against windings, half-edge pairing, closed manifold',
+           'result': 'consistent' if code == 0 else ('inconsistent' if code == 1 else 'driver failed (%d)' % code), 'output': txt[-500:]}
+    if code not in (0, 124, 125):
+        rp = os.path.join(os.path.dirname(os.path.dirname(os.path.abspath(__file__))), 'replays', 'C01-bounded-swap.json')
+        os.makedirs(os.path.dirname(rp), exist_ok=True)
+        json.dump({'property': 'C01', 'obligation': name, 'native': {'args': ['swap'], 'output': txt, 'driver': 'specs/meshops.py:DRIVER'}, 'confirmed': True}, open(rp, 'w'), indent=1)
+        rec.update({'violation': True, 'replay': rp, 'confirmed': True})
+    return [rec]
 
 EXPLANATION = ("The book-keeping half of the property as data-structure invariants carried by the editing primitives, over a full model of "
                "std::set<edge> (membership + stored edge per sorted node pair). Invariants: free-slot queues hold pairwise different ids of unused "
